@@ -17,6 +17,10 @@ CLAIMS = {
          'epoll descriptor events under CBMC contracts: enable/disable keep subscriber counts, list membership and kernel registration consistent; kernel interest is exactly the set of conditions with a subscriber (ADD/MOD/DEL chosen correctly); a callback runs only when a subscribed condition is ready, once, a one-shot event being disabled first; dispatch walks a snapshot and calls back only events that are still subscribed at their turn; the epoll and select passes look the shared record up by descriptor for every ready entry, skip it when it is gone and keep it alive during dispatch; select dispatches only when select() reported readiness.',
          'Trusted: printer, CBMC, epoll_ctl / loop hook / callback stubs, vector model. The select event class, fillFdSets and shared-record reference counting are not under contract.',
          'CBMC function/loop contracts with call-order ghosts on mechanically extracted C', '6 C03'),
+ 'C04': ('other',
+         'Signal events, the sequential halves under unbounded CBMC contracts: SignalEventImpl subscribes / unsubscribes every signal of its set exactly once, and a one-shot event is completely disabled before its callback runs (fires at most once); CommonLoop::unsubscribeSignal restores the saved previous disposition exactly when the last loop stops listening to the signal - under the lock, with signals blocked, mask restored before unlocking - and tears the loop-local pipe down when no subscriber is left.',
+         'Trusted: printer, CBMC, opaque std::map/std::set oracles, sigaction/sigprocmask/close stubs. Asynchronous delivery to every subscriber in every loop, the handler chain and subscribeSignal are not decided (not expressible as per-call contracts).',
+         'CBMC function/loop contracts with call-order ghosts on mechanically extracted C', '6 C04'),
  'C05': ('other',
          'ThreadPool under CBMC contracts (one thread visible): guarded-by obligations (stop flag, idle counter only under the pool mutex), worker loop (idle count restored on every path, stop flag checked after each wake-up, task body exactly once outside the lock between register/unregister, completion callback posted after the body), initialize (flag cleared before workers exist), priority-first FIFO pop and cancel over all priority levels (bounded domain).',
          'Trusted: printer, CBMC, opaque Cabinet/ObjectPool/std::set/std::thread stubs, one-thread view. Interleavings, liveness and WorkThread are not decided; queue targets bounded to 16 tasks per level.',
